@@ -161,3 +161,40 @@ func MatchSince(d, since time.Time) bool { return matchSince(d, since) }
 
 //@ pure
 func MatchBefore(d, before time.Time) bool { return matchBefore(d, before) }
+
+// ---------------------------------------------------------------------------
+// Dynamic number sets ("n:*", "*", "$"): a set whose Dynamic method reports
+// false ends in a bounded range, so Nums can enumerate it.
+
+// RawDynamicUID: the last range of the set is open-ended.
+//
+//@ pure
+func RawDynamicUID(s UIDSet) bool {
+	return len(s) > 0 && s[len(s)-1].Stop == 0
+}
+
+//@ pure
+func RawDynamicSeq(s SeqSet) bool {
+	return len(s) > 0 && s[len(s)-1].Stop == 0
+}
+
+//@ func (s UIDSet) Dynamic() (result bool)
+//@   props C11:post,pre@call
+//@   ensures !result ==> !RawDynamicUID(s)
+
+//@ func (s SeqSet) Dynamic() (result bool)
+//@   props C11:post,pre@call
+//@   ensures result == RawDynamicSeq(s)
+
+// DynamicNumSet: the set behind the interface value is open-ended.
+//
+//@ pure
+func DynamicNumSet(s NumSet) bool {
+	switch s := s.(type) {
+	case SeqSet:
+		return RawDynamicSeq(s)
+	case UIDSet:
+		return RawDynamicUID(s)
+	}
+	return false
+}
